@@ -6,7 +6,9 @@ package kaisim
 // so every mutating call of every actor is an interception point and ends up in the history.
 
 import (
+	"encoding/json"
 	"fmt"
+	"os"
 	"sort"
 	"strings"
 	"sync"
@@ -90,9 +92,32 @@ type SimAPI struct {
 	Cycle   int
 	// OnMutate is called (outside locks) after every applied mutating call.
 	OnMutate func(c Call)
+	watches  []watchRec
 	// batch: calls recorded while a concurrent phase is running are sorted canonically on flush
 	batch []Call
 }
+
+type watchRec struct {
+	actor, res, ns string
+	w              watch.Interface
+	at             time.Time
+}
+
+// Backlogs reports watchers holding undelivered events at a quiescent point (a consumer that
+// stopped reading would make the consumer's cache stale and the simulation unsound).
+func (s *SimAPI) Backlogs() []string {
+	s.mu.Lock()
+	defer s.mu.Unlock()
+	var out []string
+	for _, w := range s.watches {
+		if n := len(w.w.ResultChan()); n > 0 {
+			out = append(out, fmt.Sprintf("%s watch %s/%s opened at %s backlog=%d", w.actor, w.res, w.ns, w.at.Format(time.RFC3339), n))
+		}
+	}
+	return out
+}
+
+func init() { watch.DefaultChanSize = 5000 }
 
 func NewSimAPI(objs []runtime.Object) *SimAPI {
 	codecs := serializer.NewCodecFactory(Scheme())
@@ -203,6 +228,17 @@ func (s *SimAPI) install(f *k8stesting.Fake, actor string) {
 			return true, nil, apiErr(kind, &c)
 		}
 		handled, obj, err := s.shim(a, objReact)
+		if err != nil && os.Getenv("KAISIM_DEBUG_API") != "" {
+			extra := ""
+			if pa, ok := a.(k8stesting.PatchActionImpl); ok {
+				extra = string(pa.GetPatch())
+				if cur, gerr := s.Tracker.Get(a.GetResource(), a.GetNamespace(), pa.GetName()); gerr == nil {
+					b, _ := json.Marshal(cur)
+					extra += "\n   stored: " + string(b)
+				}
+			}
+			fmt.Printf("API-ERR %s: %v %s\n", c.Key(), err, extra)
+		}
 		if err != nil {
 			c.Outcome = "err:" + string(apierrors.ReasonForError(err))
 			s.record(c)
@@ -226,6 +262,11 @@ func (s *SimAPI) install(f *k8stesting.Fake, actor string) {
 	f.PrependWatchReactor("*", func(a k8stesting.Action) (bool, watch.Interface, error) {
 		wa := a.(k8stesting.WatchActionImpl)
 		w, err := s.Tracker.Watch(wa.GetResource(), wa.GetNamespace(), wa.ListOptions)
+		if err == nil {
+			s.mu.Lock()
+			s.watches = append(s.watches, watchRec{actor: actor, res: wa.GetResource().Resource, ns: wa.GetNamespace(), w: w, at: time.Now()})
+			s.mu.Unlock()
+		}
 		return true, w, err
 	})
 }
@@ -259,6 +300,38 @@ func (s *SimAPI) shim(a k8stesting.Action, objReact k8stesting.ReactionFunc) (bo
 		}
 		s.gcOwned(pod)
 		return true, nil, nil
+	}
+	if ua, ok := a.(k8stesting.UpdateActionImpl); ok && ua.GetSubresource() == "status" {
+		// a real API server only takes .status from an UpdateStatus request
+		m, err := meta.Accessor(ua.GetObject())
+		if err != nil {
+			return true, nil, err
+		}
+		cur, err := s.Tracker.Get(ua.GetResource(), ua.GetNamespace(), m.GetName())
+		if err != nil {
+			return true, nil, err
+		}
+		curU, err := runtime.DefaultUnstructuredConverter.ToUnstructured(cur)
+		if err != nil {
+			return true, nil, err
+		}
+		newU, err := runtime.DefaultUnstructuredConverter.ToUnstructured(ua.GetObject())
+		if err != nil {
+			return true, nil, err
+		}
+		if st, ok := newU["status"]; ok {
+			curU["status"] = st
+		} else {
+			delete(curU, "status")
+		}
+		out := cur.DeepCopyObject()
+		if err := runtime.DefaultUnstructuredConverter.FromUnstructured(curU, out); err != nil {
+			return true, nil, err
+		}
+		if err := s.Tracker.Update(ua.GetResource(), out, ua.GetNamespace()); err != nil {
+			return true, nil, err
+		}
+		return true, out, nil
 	}
 	return objReact(a)
 }
